@@ -1,0 +1,14 @@
+//go:build verif
+
+package route
+
+import "net/http"
+
+// Verification hook for property C17 (add-only, no behaviour): the HTTP handler LnS built, so a
+// harness can serve it over an in-memory listener.
+func VerifC17Handler(r *Router) http.Handler {
+	if r.server == nil {
+		return nil
+	}
+	return r.server.Handler
+}
